@@ -999,7 +999,13 @@ def describe(prog, body, x, depth=0, seen=None):
                 cb = prog.bodies.get(x["def"])
                 if cb is not None and cb.kind in ("const", "static"):
                     return describe(prog, cb, 0, depth + 1, set())
+                hv = const_from_hir(prog, x["def"])
+                if hv is not None:
+                    return hv
                 return ("const", x["def"])
+            m = re.match(r"^(?:const )?(-?\d+)_(?:[iu](?:8|16|32|64|128|size))$", x.get("repr") or "")
+            if m:
+                return ("lit", int(m.group(1)))
             return ("constrepr", x.get("repr"))
         if k in ("copy", "move"):
             pl = x["pl"]
@@ -1212,3 +1218,26 @@ def resolve_upvars(prog, closure_body, desc):
     if isinstance(desc, list):
         return [resolve_upvars(prog, closure_body, x) for x in desc]
     return desc
+
+
+def const_from_hir(prog, path):
+    """Value of a `const` item from its HIR initialiser (literals, arrays/tuples of literals)."""
+    h = prog.hir.get(path)
+    if not h or h.get("kind", "").split(" ")[0] not in ("Const", "Static", "AssocConst") and not h.get("kind", "").startswith("Const"):
+        return None
+
+    def conv(v):
+        if v[0] == "lit":
+            return ("lit", v[1])
+        if v[0] in ("array", "tuple"):
+            xs = [conv(x) for x in v[1]]
+            return (v[0], xs) if all(x is not None for x in xs) else None
+        return None
+    return conv(hir_value(h["body"]))
+
+
+def const_value(prog, path):
+    b = prog.bodies.get(path)
+    if b is not None and b.kind in ("const", "static"):
+        return describe(prog, b, 0)
+    return const_from_hir(prog, path)
